@@ -841,9 +841,7 @@ func c04rleEncodeCase(ctx *core.Ctx, r *rand.Rand, bufs *c04rleBufs, b *c04rleBa
 	})
 	// ---- L1: Go round trip
 	dec, dst := c04rleGoDecode(r, bufs, c.kind, c.w, enc)
-	if c.kind == "bool" {
-		c04rleBoolDecMirror(ctx, b, enc, dec, dst)
-	}
+	c04rleDecMirror(ctx, b, c.kind, c.w, enc, dec, dst)
 	if dst != "" || !c04rleEqU32(dec, c.vals) {
 		ctx.Fail("L1", "rle-go-roundtrip-"+c.kind, "Decode(Encode(xs)) != xs: "+dst,
 			c04rleDetail(c, ctx.Variant, map[string]any{"encoded": hexEnc, "decoded": core.JoinInts(dec)}))
@@ -900,31 +898,67 @@ const c04rleKeyBool = "rle-bool-decode-rle-run-not-expanded-per-value"
 const c04rleKeyI32Trunc = "rle-int32-decode-truncated-bitpacked-run-reads-past-input"
 const c04rleKeyLevelsW0 = "rle-levels-decode-bitpacked-run-at-width-0"
 
-// c04rleBoolDecMirror: L2 for the boolean DECODER - the bytes DecodeBoolean returns must equal the
-// Lean mirror of the repaired decodeBits (which models dst as a bit list; this comparison is what
-// ties the byte-level shifting of the Go code to it).
-func c04rleBoolDecMirror(ctx *core.Ctx, b *c04rleBatch, stream []byte, dec []uint32, st string) {
+// c04rleDecMirror: L2 for the DECODERS - what DecodeLevels / DecodeInt32 / DictionaryEncoding.
+// DecodeInt32 / DecodeBoolean return must equal the Lean mirrors of decodeBytes / decodeInt32 /
+// decodeBits (values when both accept, error <=> error). Not compared: a Go panic, and the two
+// malformed-input observations (int32 bit-packed run longer than the input: Go reads the spare
+// capacity where the mirror reports truncation; asm levels at width 0).
+func c04rleDecMirror(ctx *core.Ctx, b *c04rleBatch, kind string, w int, stream []byte, dec []uint32, st string) {
 	if strings.HasPrefix(st, "panic") {
+		return
+	}
+	if kind == "levels" && w == 0 && ctx.Variant == "asm" {
+		ctx.Hist("rle.decode-mirror", "skipped: levels width 0 on asm (observation)")
 		return
 	}
 	impl := "err"
 	if st == "" {
-		bs := make([]byte, len(dec))
-		for i, v := range dec {
-			bs[i] = byte(v)
+		if kind == "bool" {
+			bs := make([]byte, len(dec))
+			for i, v := range dec {
+				bs[i] = byte(v)
+			}
+			impl = "ok " + core.Hex(bs)
+		} else {
+			impl = "ok " + core.JoinInts(dec)
 		}
-		impl = "ok " + core.Hex(bs)
 	}
 	hexS := core.Hex(stream)
-	b.ask("rle.godecbool "+hexS, func(ans string) {
+	var req string
+	switch kind {
+	case "levels":
+		req = fmt.Sprintf("rle.godeclevels %d %s", w, hexS)
+	case "int32":
+		req = fmt.Sprintf("rle.godecint32 %d %s", w, hexS)
+	case "dict":
+		req = "rle.godecdict " + hexS
+	case "bool":
+		req = "rle.godecbool " + hexS
+	default:
+		return
+	}
+	b.ask(req, func(ans string) {
 		model := ans
 		if strings.HasPrefix(ans, "err") {
 			model = "err"
 		}
-		if model != impl {
-			ctx.Fail("L2", "rle-decode-mirror-bool", "DecodeBoolean differs from the Lean mirror of decodeBits",
-				map[string]any{"stream": hexS, "impl": impl, "model": ans, "variant": ctx.Variant, "replay_case": "rle-dec bool 0 " + hexS})
+		if model == impl {
+			ctx.Hist("rle.decode-mirror", kind+": equal ("+model[:2]+")")
+			return
 		}
+		if (kind == "int32" || kind == "dict") && ans == "err trunc-bitpacked" {
+			ctx.Hist("rle.decode-mirror", "skipped: int32 truncated bit-packed run read past len(src) (observation)")
+			return
+		}
+		if len(impl) > 400 {
+			impl = impl[:400] + "..."
+		}
+		if len(ans) > 400 {
+			ans = ans[:400] + "..."
+		}
+		ctx.Fail("L2", "rle-decode-mirror-"+kind, "Go decoder differs from the Lean mirror of the portable decoder",
+			map[string]any{"kind": kind, "bit_width": w, "stream": hexS, "impl": impl, "model": ans, "variant": ctx.Variant,
+				"replay_case": fmt.Sprintf("rle-dec %s %d %s", kind, w, hexS)})
 	})
 }
 
@@ -950,8 +984,8 @@ func c04rleForeignCase(ctx *core.Ctx, r *rand.Rand, bufs *c04rleBufs, b *c04rleB
 		}
 	})
 	dec, st := c04rleGoDecode(r, bufs, c.kind, c.w, stream)
+	c04rleDecMirror(ctx, b, c.kind, c.w, stream, dec, st)
 	if c.kind == "bool" {
-		c04rleBoolDecMirror(ctx, b, stream, dec, st)
 		dec = c04rleUnpackBools(dec)
 	}
 	if st == "" && len(dec) >= len(want) && c04rleEqU32(dec[:len(want)], want) {
@@ -1013,9 +1047,7 @@ func c04rleMalformedCase(ctx *core.Ctx, r *rand.Rand, bufs *c04rleBufs, b *c04rl
 		return m
 	}
 	dec, st := c04rleGoDecode(r, bufs, kind, w, stream)
-	if kind == "bool" {
-		c04rleBoolDecMirror(ctx, b, stream, dec, st)
-	}
+	c04rleDecMirror(ctx, b, kind, w, stream, dec, st)
 	switch {
 	case strings.HasPrefix(st, "panic"):
 		ctx.Hist("rle.malformed.go", "panic")
